@@ -18,8 +18,9 @@ MOVES = ["swapRes", "swapRandChargeRes", "full_shuffle", "permute_block_swap", "
 
 
 def run(ck, prog):
-    from props.common import check_memos
+    from props.common import check_memos, check_index_truthiness, FUNCS
     ck.attempt(check_memos, ck, prog)
+    ck.attempt(check_index_truthiness, ck, prog, FUNCS["C17"], {"frozen"}, "the frozen positions (0-based)")
     ck.explanation = (
         "Effect summaries (closed over the call graph) for the five moves and the two API entry points; a use analysis of the "
         "`frozen` parameter; a four-tag local type inference (set / list / ndarray / other) applied to every random.sample "
